@@ -131,19 +131,23 @@ def worker(item):
 
 def plans(tier, seed):
     pal = seed % 3
+    light = [("SX", 0, False, False), ("MX", 2, True, False), ("SX", 1, True, True)]
     if tier == "quick":
-        specs = [(lab, s) for _, lab, s in all_specs(3, 3, 1, pal)]
-        jobs = [({"pset": 0, "d": 1, "variants": variants("quick")}, specs)]
-        bounds = {"shapes": "(n,m)<=(3,3)", "config_deviation": 1, "value_deviation": 1, "variants": len(variants("quick")),
-                  "palette": pal}
+        jobs = [({"pset": 0, "d": 1, "variants": variants("quick")}, [(lab, s) for _, lab, s in all_specs(3, 3, 0, pal)]),
+                ({"pset": 0, "d": 1, "variants": light}, [(lab, s) for _, lab, s in all_specs(3, 3, 1, pal)])]
+        bounds = {"shapes": "(n,m)<=(3,3): base+uniform configurations with 11 variants, c<=1 with 3 variants",
+                  "value_deviation": 1, "palette": pal}
     else:
+        a0 = [(lab, s) for _, lab, s in all_specs(3, 4, 0, pal)]
         a = [(lab, s) for _, lab, s in all_specs(3, 4, 1, pal)]
         b = [(lab, s) for _, lab, s in all_specs(4, 4, 0, pal) if s.n == 4]
         h = [(f"harness:{k}", s) for k, s in harness_specs(pal).items()]
-        jobs = [({"pset": 0, "d": 1, "variants": variants("thorough")}, a + h),
-                ({"pset": 2, "d": 1, "variants": variants("quick")}, b),
+        jobs = [({"pset": 0, "d": 1, "variants": variants("thorough")}, a0 + h),
+                ({"pset": 0, "d": 1, "variants": variants("quick")}, a),
+                ({"pset": 2, "d": 1, "variants": light}, b),
                 ({"pset": 1, "d": 0, "variants": variants("thorough")}, a)]
-        bounds = {"shapes": "(3,4) c<=1 + harness with all 24 variants; 4-node shapes (4,4) base+uniform with 11 variants",
+        bounds = {"shapes": "(3,4) base+uniform + harness with all 24 variants (d<=1); (3,4) c<=1 with 11 variants (d<=1) and all "
+                            "24 variants on the base vectors; 4-node shapes (4,4) base+uniform with 3 variants",
                   "value_deviation": 1, "palette": pal}
     return jobs, bounds
 
